@@ -336,9 +336,8 @@ Proof.
   exists o_t. split.
   - rewrite <- !app_assoc.
     destruct (separator_cases prev t r Hp) as [-> | ->]; [exact Lt|].
-    apply (lexes_one _ [] (a ++ b ++ k) o_t o_t); auto.
+    refine (lexes_one _ [] (a ++ b ++ k) o_t o_t _ (lex_separator _) _ Lt eq_refl).
     + discriminate.
-    + apply lex_separator.
     + cbn [app length]. lia.
   - rewrite Mt. unfold fl. cbn [flat_map]. rewrite <- app_assoc. apply mergews_app_cong, Mr.
 Qed.
